@@ -171,3 +171,32 @@ func capturedInLoop(n int) int {
 	}
 	return v
 }
+
+// ---- re-acquisition through a helper: sync.RWMutex is not reentrant, not even for readers
+func relockThroughHelper(k string) int {
+	tabMu.RLock()
+	defer tabMu.RUnlock()
+	return readLocked(k) // takes the read lock again (inlined: no contract)
+}
+
+func readLockedC(k string) int {
+	tabMu.RLock()
+	defer tabMu.RUnlock()
+	return table[k]
+}
+
+func relockThroughContract(k string) int {
+	tabMu.RLock()
+	defer tabMu.RUnlock()
+	return readLockedC(k) // known by its contract only
+}
+
+// only takes the lock and delegates the guarded access: still subject to the lock discipline
+func lockAndDelegate(k string) int {
+	tabMu.RLock()
+	v := peek(k)
+	tabMu.RUnlock()
+	return v
+}
+
+func peek(k string) int { return table[k] }
